@@ -48,10 +48,20 @@ fn main() {
                 writeln!(out, "{header}").unwrap();
                 let n = 1 + rng.below(ops as u64) as usize + ops / 2;
                 for step in 0..n {
-                    let op = scen.gen_op(&mut rng, step);
+                    // the generator reads the implementation's state; if that state is inconsistent
+                    // (a defect in the code under test) the generator must not take the run down
+                    let op = match common::catch(|| scen.gen_op(&mut rng, step)) {
+                        Some(op) => op,
+                        None => continue,
+                    };
                     writeln!(out, "{op}").unwrap();
-                    for l in scen.apply(&op) {
-                        writeln!(out, "{l}").unwrap();
+                    match common::catch(|| scen.apply(&op)) {
+                        Some(ls) => {
+                            for l in ls {
+                                writeln!(out, "{l}").unwrap();
+                            }
+                        }
+                        None => writeln!(out, "> err harness_panic=1").unwrap(),
                     }
                 }
             }
